@@ -154,6 +154,37 @@ func (ex *Exec) apiIntrinsic(name string, fn *ssa.Function, args []Value, fr *Fr
 	case "verifFreezeGlobals":
 		ex.freezeGlobals()
 		return nil, true
+	case "verifSharedBegin":
+		ex.freeze(args[0], 2)
+		ex.freezeGlobals()
+		ex.sharedFrom = len(ex.frozenHits)
+		return nil, true
+	case "verifConcurrently":
+		n := ex.concInt(args[0], "verifConcurrently n")
+		for i := 0; i < n; i++ {
+			ex.callValue(args[1].(*FuncV), []Value{bvConst(64, uint64(i))}, fr, pos)
+		}
+		return nil, true
+	case "verifSharedCheck":
+		id := ex.concName(args[0])
+		var lines []string
+		seen := map[string]bool{}
+		for _, h := range ex.frozenHits[ex.sharedFrom:] {
+			if h.level != 2 || h.locks > 0 {
+				continue
+			}
+			l := h.label + " written at " + h.where
+			if !seen[l] {
+				seen[l] = true
+				lines = append(lines, l)
+			}
+		}
+		ex.addEvent("sharedcheck", id, nil)
+		if len(lines) > 0 {
+			m, _, _ := ex.model(nil)
+			ex.recordCE("sharedwrite", id, "shared state written without a lock: "+strings.Join(lines, "; "), ex.posOf(fr, pos), "", m)
+		}
+		return nil, true
 	case "verifFrozenWrites":
 		return bvConst(64, uint64(len(ex.frozenHits))), true
 	case "verifIsSymbolicEngine":
